@@ -26,6 +26,8 @@ type APIReq struct {
 	Name  string `json:"name"`
 	Src   string `json:"src"`
 	Diff  string `json:"diff"` // unified diff text (applydiff)
+	// watchdog for apply / parsepatch / augment (0 = default); a call that does not return in time is reported as "timeout"
+	TimeoutMs int `json:"timeout_ms,omitempty"`
 }
 
 type APIRes struct {
@@ -147,9 +149,15 @@ func cmdAPI(in, out string) error {
 			return err
 		}
 		res := APIRes{ID: r.ID}
+		wd := func(def time.Duration) time.Duration {
+			if r.TimeoutMs > 0 {
+				return time.Duration(r.TimeoutMs) * time.Millisecond
+			}
+			return def
+		}
 		switch r.Op {
 		case "apply":
-			a := applyGuarded(r.Patch, r.Name, []byte(r.Src), 10*time.Second)
+			a := applyGuarded(r.Patch, r.Name, []byte(r.Src), wd(10*time.Second))
 			res.Out, res.Err = string(a.out), a.err
 		case "applydiff":
 			o, err := ApplyUnifiedDiff(r.Src, r.Diff)
@@ -175,7 +183,7 @@ func cmdAPI(in, out string) error {
 			select {
 			case e := <-ch:
 				res.Err = e
-			case <-time.After(10 * time.Second):
+			case <-time.After(wd(10 * time.Second)):
 				res.Err = "timeout"
 			}
 		case "augment":
@@ -202,7 +210,7 @@ func cmdAPI(in, out string) error {
 			case a := <-ch:
 				b, _ := json.Marshal(a.kinds)
 				res.Out, res.Err = string(b), a.err
-			case <-time.After(5 * time.Second):
+			case <-time.After(wd(5 * time.Second)):
 				res.Err = "timeout"
 			}
 		case "split":
